@@ -37,13 +37,20 @@ static void run_c0102(const Args &a, CaseOut &co, const GraphSpec &s, bool want_
         std::list<std::list<E>> cycles; W ret = W();
         std::string exc, sink_err;
         bool positional = (mix(canon_hash(s), v) % 10) < 3;     // the output iterator is a template parameter: also a positional one
+        bool ext_map = (mix(canon_hash(s), v + 77) % 10) < 2;    // the weight map is a template parameter too: an external std::map based one
         try {
-            if (positional) { SlotSink<std::list<E>> sink((size_t) cycle_space_dim(s) + 4); ret = run_exact_it<W>(v, g, w, sink.begin()); sink_err = sink.collect((size_t) cycle_space_dim(s), cycles); }
+            if (ext_map) {
+                std::map<E, W> store; for (auto e : boost::make_iterator_range(boost::edges(g))) store[e] = boost::get(w, e);
+                boost::associative_property_map<std::map<E, W>> wm(store);
+                if (positional) { SlotSink<std::list<E>> sink((size_t) cycle_space_dim(s) + 4); ret = run_exact_it<W>(v, g, wm, sink.begin()); sink_err = sink.collect((size_t) cycle_space_dim(s), cycles); }
+                else ret = run_exact_it<W>(v, g, wm, std::back_inserter(cycles));
+            }
+            else if (positional) { SlotSink<std::list<E>> sink((size_t) cycle_space_dim(s) + 4); ret = run_exact_it<W>(v, g, w, sink.begin()); sink_err = sink.collect((size_t) cycle_space_dim(s), cycles); }
             else ret = run_exact<W>(v, g, w, cycles);
         } catch (std::exception &e) { exc = e.what(); } catch (...) { exc = "unknown exception"; }
         std::string cj = variant_case_json(s, exact_names[v], wname<W>());
         if (!exc.empty()) { co.viol(std::string(exact_names[v]) + ":exception", "threw: " + exc, cj, spec_text(s)); continue; }
-        if (positional) co.tag("sink:positional");
+        if (positional) co.tag("sink:positional"); if (ext_map) co.tag("weightmap:external_std_map");
         if (!sink_err.empty()) { co.viol(std::string(exact_names[v]) + (want_c02 ? ":invalid_basis" : ":output_iterator_misuse"), "through a positional output iterator: " + sink_err, cj, spec_text(s)); continue; }
         BasisReport br = check_basis<W>(s, g, cycles);
         std::string obs = J().num("emitted_cycles", (ll) br.count).raw("cycle_weights_units", jnums(br.weights)).dbl("returned", (double) ret).done();
